@@ -94,8 +94,12 @@ type PolicySpec struct {
 	// moved on when the call returns); 0 keeps consecutive engine steps at one instant.
 	WriteLatUs int64 `json:"writeLatUs,omitempty"`
 	// Yields: the scheduling points inserted in front of the engine's accesses to
-	// shared in-memory state are active (first incarnation only).
+	// shared in-memory state are active (in recovering incarnations only where a context tells the caller's process, see World.YieldCtx).
 	Yields bool `json:"yields,omitempty"`
+	// YieldGen0Only: scheduling points take part in the first incarnation only (the
+	// behaviour before they were extended to recovering incarnations; set in replay files
+	// recorded before, never generated).
+	YieldGen0Only bool `json:"yield_gen0_only,omitempty"`
 	// YieldAllGens: experimental, never generated (see World.Yield).
 	YieldAllGens bool `json:"yield_all_gens,omitempty"`
 }
